@@ -66,20 +66,21 @@ def all_keywords():
 _name_ok_cache = {}
 
 
+# words the lexer's dedicated rules treat specially and that are not in
+# every dictionary (static: the name filter must not depend on the lexer
+# under test, or a lexer defect would silently remove its own witnesses)
+SPECIAL_WORDS = {'ILIKE', 'RLIKE', 'REGEXP', 'GO', 'STRAIGHT', 'STRAIGHT_JOIN',
+                 'NULLS', 'LATERAL', 'EXPLODE', 'INLINE', 'POSEXPLODE',
+                 'STACK', 'PARSE_URL_TUPLE', 'HANDLER', 'ZONE'}
+
+
 def name_ok(word):
-    """A plain name must lex as exactly one Name token, alone, before `(`,
-    after `.`, and must be in no keyword dictionary."""
+    """A plain name is in no keyword dictionary (any letter case) and is not
+    one of the words with a dedicated lexer rule."""
     r = _name_ok_cache.get(word)
     if r is None:
-        r = False
-        if word.upper() not in all_keywords():
-            try:
-                a = list(_lexer.tokenize(word))
-                b = list(_lexer.tokenize(word + ' x'))
-                r = (len(a) == 1 and a[0][0] is _T.Name
-                     and b[0] == (_T.Name, word))
-            except Exception:
-                r = False
+        up = word.upper()
+        r = up not in all_keywords() and up not in SPECIAL_WORDS
         _name_ok_cache[word] = r
     return r
 
@@ -103,8 +104,8 @@ NAME_POOL = ['a', 'b', 'c', 'x', 'y', 'z2', 'foo', 'bar', 'baz', 'tbl',
              'regexp_x', 'ilike_x', 'casey', 'ifx', 'iffy', 'endif',
              'orderby', 'groupby', 'leftjoin', 'xjoin', 'xend', 'xcase',
              'xfrom', 'xas', 'xin', 'INx', 'ASx', 'FROMx', 'CASEx']
-FUNC_POOL = ['f', 'g', 'coalesce2', 'myfn', 'upper2', 'lower2', 'nvl2',
-             'concat2', 'fn_x', 'agg1', 'sum2', 'len2']
+FUNC_POOL = ['f', 'g', 'coalesce2', 'myfn', 'upper2', 'lower2', 'nvl_2',
+             'concat2', 'fn_x', 'agg1', 'sum2', 'len2', 'desc_fn', 'asc_fn']
 TYPE_POOL = ['int', 'integer', 'text', 'varchar', 'numeric', 'bigint']
 STR_BODIES = ['', 'a', 'abc', 'hello world', 'it', 'x;y', 'a;', '--no',
               '/* no */', '(', ')', '(x', 'select 1', 'end', 'begin', 'é',
@@ -336,7 +337,11 @@ class Gen:
             i = self.dollar(gap)
             self.s.features.add('dollar')
             return i, i, 'dollar'
-        if x < 0.99 and cfg.keyword_literals and x >= 0.985:
+        after_not = bool(self.s.toks) and self.s.toks[-1].kind == 'kw' \
+            and self.s.toks[-1].text.upper() in ('NOT', 'IS')
+        # ('NOT NULL' is one keyword for the lexer)
+        if x < 0.99 and cfg.keyword_literals and x >= 0.985 \
+                and not after_not:
             w = rng.choice(['NULL', 'null', 'Null', 'TRUE', 'true', 'FALSE',
                             'false'])
             i = self.emit('kw', w, gap if gap is not None else self.g())
